@@ -25,7 +25,7 @@ ASSUMPTIONS = ['simulated device implements the firmware param protocol (read/wr
 REQUIRED = ['mon.writes_checked', 'mon.refused_checked', 'mon.value_replies', 'mon.callback_invocations',
             'mon.misc_replies', 'mon.one_outstanding_pairs', 'mon.precedence_pairs', 'mon.notifications',
             'mon.multi_outstanding_misc_cases', 'mon.v1_cases', 'mon.state_queries_answered_enoent',
-            'mon.instant_reply_cases_with_statement_level_preemption']
+            'mon.instant_reply_cases_with_statement_level_preemption', 'mon.additional_listeners_checked']
 DESC_TIMEOUT = 900
 
 FLOATS = [0.0, -0.0, 1.5, -2.25, float('inf'), float('-inf'), float('nan'), 1e-45, 3.4028234663852886e38, 1e39,
@@ -149,7 +149,7 @@ def run(desc, ctx):
                 if (op[0], op[2]) in seen:
                     prog[j] = ('update', op[1])
                 seen.add((op[0], op[2]))
-    ob = {'calls': [], 'all': [], 'byname': {}, 'bygroup': {}, 'misc_cb': [], 'refused': [], 't0_rx': None,
+    ob = {'calls': [], 'all': [], 'byname': {}, 'byname2': {}, 'byname3': {}, 'removed': {}, 'bygroup': {}, 'misc_cb': [], 'refused': [], 't0_rx': None,
           't0_tx': None, 'final_cache': None, 'problems': []}
     by_index = {i: p for i, p in enumerate(dev.params)}
     watch_names = ['%s.%s' % (p['g'], p['n']) for p in dev.params[::2]]
@@ -172,6 +172,15 @@ def run(desc, ctx):
             g, n = wn.split('.')
             ob['byname'][wn] = []
             cf.param.add_update_callback(group=g, name=n, cb=(lambda n_, v_, k=wn: ob['byname'][k].append((n_, v_))))
+            # a second listener on the same parameter, and one registered after an earlier one was removed again
+            ob['byname2'][wn] = []
+            cf.param.add_update_callback(group=g, name=n, cb=(lambda n_, v_, k=wn: ob['byname2'][k].append((n_, v_))))
+            ob['byname3'][wn] = []
+            ob['removed'][wn] = []
+            gone = (lambda n_, v_, k=wn: ob['removed'][k].append((n_, v_)))
+            cf.param.add_update_callback(group=g, name=n, cb=gone)
+            cf.param.remove_update_callback(group=g, name=n, cb=gone)
+            cf.param.add_update_callback(group=g, name=n, cb=(lambda n_, v_, k=wn: ob['byname3'][k].append((n_, v_))))
         for g in watch_groups:
             ob['bygroup'][g] = []
             cf.param.add_update_callback(group=g, cb=(lambda n_, v_, k=g: ob['bygroup'][k].append((n_, v_))))
@@ -402,6 +411,14 @@ def run(desc, ctx):
     for wn, got in ob['byname'].items():
         check_stream('per-parameter', got, [(i, v) for (i, v) in exp_updates
                                             if '%s.%s' % (by_index[i]['g'], by_index[i]['n']) == wn])
+    for key, label in (('byname2', 'second-per-parameter'), ('byname3', 'per-parameter-registered-after-a-removal')):
+        for wn, got in ob[key].items():
+            ctx.count('mon.additional_listeners_checked')
+            check_stream(label, got, [(i, v) for (i, v) in exp_updates
+                                      if '%s.%s' % (by_index[i]['g'], by_index[i]['n']) == wn])
+    for wn, got in ob['removed'].items():
+        if got:
+            V('param:removed-callback-still-called', {'param': wn, 'calls': got[:3]})
     for g, got in ob['bygroup'].items():
         check_stream('per-group', got, [(i, v) for (i, v) in exp_updates if by_index[i]['g'] == g])
     # final cache / get_value == last value the device reported for each parameter
